@@ -11,11 +11,13 @@ source is at its end.  Quantifying over conforming sources is quantifying over c
   the one-chunk schedule);
 * `bufSrc` — `std::io::BufReader` (8 KiB) over a source, as a source (both `FileHandle::Reader`
   and the process-wide `io::stdin()` are such readers);
-* `readFromFile` — the loop of `read_from_file` as it is (it stops after the first short read);
+* `readFromFile` — the loop of `read_from_file`: it goes on until `num` bytes were read or a read returns nothing
+  (end of input); a short read does not end it;
 * `readUntil`, `readToEnd` — `BufRead::read_line`'s `read_until(b'\n')`, `Read::read_to_end`;
 * `call` — `builtin_read`, `builtin_read_line`, `builtin_read_to_string` on a reader / on stdin;
 * `openOpts`, `osOpen`, `BufW.*` — `builtin_open`'s mode table as `OpenOptions` flags, the
-  open(2) rules those flags select, `BufWriter` (8 KiB) and `builtin_write` / `builtin_flush` / exit.
+  open(2) rules those flags select, `BufWriter` (8 KiB) and `builtin_write` / `builtin_flush` / `builtin_exit`
+  (which flushes the writers handed out by `open` before `process::exit`).
 -/
 namespace P2sh.FileRead
 
@@ -29,9 +31,6 @@ structure Conforms {σ : Type} (R : Src σ) : Prop where
   split : ∀ s n, (R.read s n).1 ++ R.rem (R.read s n).2 = R.rem s
   le : ∀ s n, (R.read s n).1.length ≤ n
   progress : ∀ s n, 0 < n → R.rem s ≠ [] → (R.read s n).1 ≠ []
-
-/-- a source that never returns short before its end (a regular file) -/
-def Full {σ : Type} (R : Src σ) : Prop := ∀ s n, (R.read s n).1.length = min n (R.rem s).length
 
 /-! ### concrete sources -/
 
@@ -64,8 +63,8 @@ def USIZE_MAX : Nat := 18446744073709551615
 /-- `*num as usize` -/
 def asUsize (n : Int) : Nat := (n % 18446744073709551616).toNat
 
-/-- the `while total_bytes_read < num_bytes_to_read` loop, as written: a read of fewer bytes than
-asked for ends the loop ("Got fewer bytes than requested, so we're done") -/
+/-- the `while total_bytes_read < num_bytes_to_read` loop: each round asks for
+`min 4096 (num - total)` bytes; a read of 0 bytes (end of input) ends it, a short read does not -/
 def readLoop {σ : Type} (R : Src σ) (num : Nat) : Nat → σ → Nat → Bytes × σ
   | 0, s, _ => ([], s)
   | fuel + 1, s, total =>
@@ -73,35 +72,12 @@ def readLoop {σ : Type} (R : Src σ) (num : Nat) : Nat → σ → Nat → Bytes
       let readLen := min CHUNK (num - total)
       let r := R.read s readLen
       if r.1.length = 0 then ([], r.2)
-      else if r.1.length < readLen then (r.1, r.2)
       else let t := readLoop R num fuel r.2 (total + r.1.length); (r.1 ++ t.1, t.2)
     else ([], s)
 
+/-- `read_from_file(reader, num)` (fuel: every round that goes on consumes at least one byte) -/
 def readFromFile {σ : Type} (R : Src σ) (s : σ) (num : Nat) : Bytes × σ :=
   readLoop R num ((R.rem s).length + 1) s 0
-
-/-- the loop a repair would have: go on until `num` bytes or end of input -/
-def readLoopFixed {σ : Type} (R : Src σ) (num : Nat) : Nat → σ → Nat → Bytes × σ
-  | 0, s, _ => ([], s)
-  | fuel + 1, s, total =>
-    if total < num then
-      let readLen := min CHUNK (num - total)
-      let r := R.read s readLen
-      if r.1.length = 0 then ([], r.2)
-      else let t := readLoopFixed R num fuel r.2 (total + r.1.length); (r.1 ++ t.1, t.2)
-    else ([], s)
-
-/-- which of the repairs proposed for the defects of DESIGN §8 the working tree contains (derived from
-the source by `tools/props/c21.py`; all `false` = the unchanged tree) -/
-structure Fixes where
-  readLoop : Bool := false        -- F16: `read_from_file` goes on after a short read
-  stdinToString : Bool := false   -- F31: `read_to_string` has an arm for stdin
-  appendCreates : Bool := false   -- F17: mode `a` opens with `create(true)`
-  exitFlushes : Bool := false     -- F32: `exit` flushes the open writers
-  deriving DecidableEq, Repr
-
-def readFromFileV {σ : Type} (fixed : Bool) (R : Src σ) (s : σ) (num : Nat) : Bytes × σ :=
-  if fixed then readLoopFixed R num ((R.rem s).length + 1) s 0 else readFromFile R s num
 
 /-! ### `read_line`, `read_to_string` -/
 
@@ -134,11 +110,6 @@ def utf8Valid (bs : Bytes) : Bool := (String.fromUTF8? (ByteArray.mk bs.toArray)
 
 /-! ### the builtins -/
 
-inductive Handle where
-  | reader     -- `FileHandle::Reader(BufReader<File>)`
-  | stdin      -- `FileHandle::Stdin` (the process-wide `BufReader` of `io::stdin()`)
-  deriving DecidableEq, Repr
-
 inductive Call where
   | readAll                 -- read(f)
   | readN (n : Int)         -- read(f, n)
@@ -154,34 +125,33 @@ inductive Res where
   | rterr                   -- runtime error: the program stops
   deriving DecidableEq, Repr
 
-/-- one builtin call on a handle whose buffered reader is in state `st`; also what it consumed -/
-def call {σ : Type} (fx : Fixes) (R : Src σ) (h : Handle) (st : Bytes × σ) : Call → Res × Bytes × (Bytes × σ)
-  | .readAll => let r := readFromFileV fx.readLoop (bufSrc BUF R) st USIZE_MAX; (.bytes r.1, r.1, r.2)
-  | .readN n => let r := readFromFileV fx.readLoop (bufSrc BUF R) st (asUsize n); (.bytes r.1, r.1, r.2)
+/-- one builtin call on a handle whose buffered reader is in state `st`; also what it consumed.
+`read`, `read_line` and `read_to_string` treat a file reader and stdin alike -/
+def call {σ : Type} (R : Src σ) (st : Bytes × σ) : Call → Res × Bytes × (Bytes × σ)
+  | .readAll => let r := readFromFile (bufSrc BUF R) st USIZE_MAX; (.bytes r.1, r.1, r.2)
+  | .readN n => let r := readFromFile (bufSrc BUF R) st (asUsize n); (.bytes r.1, r.1, r.2)
   | .readLine =>
     let r := readUntil BUF R ((st.1 ++ R.rem st.2).length + 1) st
     (if utf8Valid r.1 then .str r.1 else .errIo, r.1, r.2)
   | .readToString =>
-    if h = .stdin ∧ fx.stdinToString = false then (.rterr, [], st)          -- "invalid file handle"
-    else
-      let r := readToEnd R st
-      (if utf8Valid r.1 then .str r.1 else .errUtf8, r.1, r.2)
+    let r := readToEnd R st
+    (if utf8Valid r.1 then .str r.1 else .errUtf8, r.1, r.2)
 
 /-- a script of calls; a runtime error ends it -/
-def runCalls {σ : Type} (fx : Fixes) (R : Src σ) (h : Handle) : Bytes × σ → List Call → List Res
+def runCalls {σ : Type} (R : Src σ) : Bytes × σ → List Call → List Res
   | _, [] => []
   | st, c :: cs =>
-    let r := call fx R h st c
+    let r := call R st c
     match r.1 with
     | .rterr => [.rterr]
-    | x => x :: runCalls fx R h r.2.2 cs
+    | x => x :: runCalls R r.2.2 cs
 
 /-- what the calls consumed, in order (for the prefix law) -/
-def consumed {σ : Type} (fx : Fixes) (R : Src σ) (h : Handle) : Bytes × σ → List Call → Bytes × (Bytes × σ)
+def consumed {σ : Type} (R : Src σ) : Bytes × σ → List Call → Bytes × (Bytes × σ)
   | st, [] => ([], st)
   | st, c :: cs =>
-    let r := call fx R h st c
-    let t := consumed fx R h r.2.2 cs
+    let r := call R st c
+    let t := consumed R r.2.2 cs
     (r.2.1 ++ t.1, t.2)
 
 /-! ### `open`: the mode table and what the flags mean to the operating system -/
@@ -196,9 +166,9 @@ structure OpenOpts where
   deriving DecidableEq, Repr
 
 /-- the `match mode` of `builtin_open` (as the code sets the flags) -/
-def openOpts (fx : Fixes) : String → Option OpenOpts
+def openOpts : String → Option OpenOpts
   | "r" => some { read := true }                                   -- `File::open`
-  | "a" => some { append := true, create := fx.appendCreates }     -- `.append(true)` (F17: no `.create(true)`)
+  | "a" => some { append := true, create := true }                 -- `.append(true).create(true)`
   | "w" => some { write := true, create := true, truncate := true }
   | "x" => some { write := true, createNew := true }
   | _ => none                                                      -- runtime error "invalid file open mode"
@@ -233,7 +203,7 @@ def BufW.flush (w : BufW) : BufW := { file := w.file ++ w.buf, buf := [] }
 inductive Ending where
   | normal       -- the script runs to its end: the handle is dropped, `BufWriter::drop` flushes
   | flush        -- flush(f), then the end
-  | exit         -- exit(0): `process::exit` runs no destructors
+  | exit         -- exit(0): `builtin_exit` flushes the live writers handed out by `open`, then `process::exit`
   | flushExit    -- flush(f); exit(0)
   deriving DecidableEq, Repr
 
@@ -245,9 +215,9 @@ inductive OpenRes where
 
 /-- `let f = open(path, mode); write(f, d) for each d; <ending>`: the open result, what each write
 returned, and the file afterwards (`none`: no such file) -/
-def writeRun (fx : Fixes) (mode : String) (existing : Option Bytes) (writes : List Bytes) (e : Ending) :
+def writeRun (mode : String) (existing : Option Bytes) (writes : List Bytes) (e : Ending) :
     OpenRes × List Nat × Option Bytes :=
-  match openOpts fx mode with
+  match openOpts mode with
   | none => (.rterr, [], existing)
   | some o =>
     match osOpen o existing with
@@ -256,9 +226,9 @@ def writeRun (fx : Fixes) (mode : String) (existing : Option Bytes) (writes : Li
       if o.read then (.handle, [], some c)      -- a reader: `write` is a runtime error, nothing is written
       else
         let r := writes.foldl (fun (acc : BufW × List Nat) d => let x := acc.1.write d; (x.1, acc.2 ++ [x.2])) ({ file := c }, [])
+        -- every ending flushes the buffer: drop, flush(f), or exit's flush of the open writers
         let w := match e with
-          | .normal | .flush | .flushExit => r.1.flush
-          | .exit => if fx.exitFlushes then r.1.flush else r.1
+          | .normal | .flush | .flushExit | .exit => r.1.flush
         (.handle, r.2, some w.file)
 
 end P2sh.FileRead
